@@ -3,9 +3,9 @@ package rules
 import (
 	"fmt"
 	"go/constant"
-	"sort"
 	"go/token"
 	"go/types"
+	"sort"
 	"strings"
 
 	"golang.org/x/tools/go/ssa"
@@ -267,6 +267,21 @@ func checkC14(p *core.Program, r *core.Report) {
 			} else {
 				r.Fail(R3, key, p.Pos(fire.Pos()), "the timeout is dispatched without re-validating that this timer is still the current, un-stopped one (the timer channel may already be ready when stop runs)")
 			}
+			// a timer goroutine touches the connection's timer bookkeeping only after it has established that
+			// it is the current timer: a replaced timer that still expires must not clear the running flag or
+			// the token of its successor
+			core.EachInstr(a.body, func(in ssa.Instruction) {
+				fl, _, _ := core.StoredField(in)
+				if fl == nil || (fl != fTimer && !tokenFields[fl]) {
+					return
+				}
+				k := "timer goroutine of " + name + " writes " + fl.Name() + " only as the current timer"
+				if core.Guarded(in, guard) {
+					r.OK(R3, k, p.Pos(in.Pos()), "behind the token identity check")
+				} else {
+					r.Fail(R3, k, p.Pos(in.Pos()), "an expiring timer that was already replaced updates "+fl.Name()+" of the connection: the bookkeeping of the current timer is corrupted (it is then not stopped, or believed stopped, and fires into a later phase)")
+				}
+			})
 		}
 	}
 	// R2: cancellation sites
@@ -408,7 +423,6 @@ func checkC14(p *core.Program, r *core.Report) {
 
 const token_EQL = token.EQL
 const token_NEQ = token.NEQ
-
 
 // statePhase groups the SHIP handshake states into the phases of SHIP 13.4.3-13.4.6 by the prefix of the model constant.
 func statePhase(name string) string {
